@@ -70,7 +70,10 @@ def layout():
         ("libnullcode.so.1", [os.path.join(src, "builtin/null_code", s) for s in nul], []),
         ("liberasurecode_rs_vand.so.1", [os.path.join(src, "builtin/rs_vand", s) for s in rsv], []),
         ("liberasurecode.so.1", [os.path.join(src, s) for s in main],
-         ["libXorcode.so.1", "libnullcode.so.1", "liberasurecode_rs_vand.so.1"]),
+         # what the repository's own build ends up with (readelf -d src/.libs/liberasurecode.so: NEEDED libXorcode only; its
+         # LIBADD names all three plugins but the link keeps just the one whose symbols the front end references): the null and
+         # rs_vand plugins are loaded with dlopen per instance and really unmapped when their last instance goes
+         ["libXorcode.so.1"]),
     ]
 
 
